@@ -53,8 +53,9 @@ Section Common.
 
   (** Two frozen copies of [Base.Vec3.rotate_raw]: [rotate_raw_old] is the code as
       pinned (in the branch 0 < sintheta < min_acc, sinphi = sqrt(1 - cosphi^2)
-      drops the sign of rot[Y]); [rotate_raw_new] is the repaired formula
-      (cosphi, sinphi) = (x, y) / sqrt(x^2 + y^2).  [Base.Vec3.rotate_raw] is
+      drops the sign of rot[Y], and x = y = 0 with sintheta > 0 by rounding gives 0/0);
+      [rotate_raw_new] is the repaired code: branch on rho^2 = x^2 + y^2 > 0 and
+      (cosphi, sinphi) = (x, y) / sqrt(rho^2).  [Base.Vec3.rotate_raw] is
       convertible to one of them (CommonProofs.base_rotate_is). *)
   Definition rotate_raw_old (min_acc : T) (dir rot : vec3 T) : vec3 T :=
     let sintheta := nsqrt (n1 - nsq (vz rot)) in
@@ -73,7 +74,7 @@ Section Common.
     let '(cosphi, sinphi) :=
       if min_acc <=? sintheta then
         let inv := n1 / sintheta in (vx rot * inv, vy rot * inv)
-      else if n0 <? sintheta then
+      else if n0 <? nsq (vx rot) + nsq (vy rot) then
         let inv := n1 / nsqrt (nsq (vx rot) + nsq (vy rot)) in (vx rot * inv, vy rot * inv)
       else (n1, n0) in
     let a := vz rot * vx dir + sintheta * vz dir in
